@@ -134,22 +134,9 @@ sharness! {
     }
 }
 
-sharness! {
-    #[kani::unwind(30)]
-    fn c08_accept_v5_full() {
-        stubs::symbolic_clock();
-        let (mut src, pre) = any_source(PvClass::Any);
-        let mut p = any_pkt5();
-        let sel: u8 = kani::any();
-        let send: u64 = kani::any();
-        let recv: u64 = kani::any();
-        let mut run = |b0: u8, b12: u8, b14: u8, b15: u8, last: u8| {
-            p.set_hdr(b0, b12, b14, b15, last);
-            accept_body(&mut src, &pre, p.bytes(), send, recv);
-        };
-        for_v5hdr!(more, sel, run);
-    }
-}
+// (A variant of `c08_accept_v5` with 7 / 10 / 15 header combinations (malformed mode, other
+// timescales, reserved flag bits, LI=3, the template under versions 3 and 4) exceeds the 8 GB
+// solver cap or the 30 min limit: 6.3 GB after 21 min with 7 combinations.)
 
 /// Replay / duplicates. `c08_accept` shows, from ANY state, that a measurement needs a pending
 /// request and clears it, and that a packet that is not measured leaves the pending request as it
